@@ -45,6 +45,9 @@ func (r *BasicPrivateTokenRequest) Marshal() []byte {
 }
 
 func (r *BasicPrivateTokenRequest) Unmarshal(data []byte) bool {
+	// Drop any cached encoding of the value held before
+	r.raw = nil
+
 	s := cryptobyte.String(data)
 
 	var tokenType uint16
